@@ -119,9 +119,9 @@ func scenarios(u *universe) []scenario {
 			at(14, eExchange(u.peerIDs[0], e2, p2)), // pending beside an active secret
 			at(15, ePeeringState(u.peerIDs[0], "peer1", pbpeering.PeeringState_TERMINATED, tm))}},
 		{"peering-dialer-reestablished-then-deleted", []entry{
-			at(5, sPeering(u.peerIDs[2], "peer3", true, u.secretIDs[2])),
-			at(7, eEstablish(u.peerIDs[2], u.secretIDs[3])),
-			at(8, ePromote(u.peerIDs[2], u.secretIDs[3])), // dialers cannot promote
+			at(5, sPeering(u.peerIDs[2], "peer3", true, dialSecrets[0])),
+			at(7, eEstablish(u.peerIDs[2], dialSecrets[1])),
+			at(8, ePromote(u.peerIDs[2], dialSecrets[1])), // dialers cannot promote
 			at(9, func() entry {
 				p := &pbpeering.Peering{ID: u.peerIDs[2], Name: "peer3", State: pbpeering.PeeringState_DELETING, DeletedAt: timestamppb.New(tm),
 					PeerServerAddresses: []string{"10.0.0.1:8503"}, PeerID: uuidN(0xc2, 1)}
